@@ -87,7 +87,9 @@ type inliner struct {
 }
 
 type litVar struct {
-	kind     string   // "lit": function literal; "mexpr": method expression (*T).M; "func": declared function
+	v        *types.Var
+	file     *ast.File
+	kind     string   // "lit": function literal; "mexpr": method expression (*T).M; "func": declared function; "nil": no callback
 	expr     ast.Expr // for mexpr / func
 	lit      *ast.FuncLit
 	p        *packages.Package
@@ -172,6 +174,7 @@ func flattenHelpers(pkgs []*packages.Package) (map[string][]byte, []string) {
 			in.rewriteFile(p, f)
 		}
 	}
+	in.foldCallbackNilTests()
 	in.rewriteFuncValueCalls()
 	in.dropBoundLiterals()
 	// a helper all of whose uses were inlined is dropped from the analysed program (it would otherwise still
@@ -207,8 +210,15 @@ func flattenHelpers(pkgs []*packages.Package) (map[string][]byte, []string) {
 	if len(in.changed) == 0 {
 		return nil, notes
 	}
+	pkgNames := map[string]string{}
+	for _, p := range pkgs {
+		for path, ip := range p.Imports {
+			pkgNames[path] = ip.Name
+		}
+	}
 	overlay := map[string][]byte{}
 	for name, f := range in.changed {
+		pruneImports(f, pkgNames)
 		var buf bytes.Buffer
 		f.Comments = nil
 		cfg := &printer.Config{Mode: printer.UseSpaces | printer.TabIndent, Tabwidth: 8}
@@ -271,7 +281,9 @@ func (in *inliner) notInlinable(obj *types.Func, fd *ast.FuncDecl) string {
 		case *ast.DeferStmt:
 			in.hasDefer[obj] = true
 		case *ast.LabeledStmt:
-			why = "has labels"
+			if !strings.HasPrefix(x.Label.Name, "_inl") {
+				why = "has labels"
+			}
 		case *ast.BranchStmt:
 			if x.Tok == token.GOTO {
 				why = "uses goto"
@@ -453,12 +465,42 @@ func (in *inliner) collectLitVars() {
 			continue
 		}
 		for _, f := range p.Syntax {
+			// the extent of earlier expansions: blocks that start with the marker constant
+			type span struct{ lo, hi token.Pos }
+			var expansions []span
+			ast.Inspect(f, func(n ast.Node) bool {
+				if b, ok := n.(*ast.BlockStmt); ok && len(b.List) > 0 {
+					if ds, ok := b.List[0].(*ast.DeclStmt); ok {
+						if gd, ok := ds.Decl.(*ast.GenDecl); ok && gd.Tok == token.CONST && len(gd.Specs) == 1 {
+							if vs, ok := gd.Specs[0].(*ast.ValueSpec); ok && len(vs.Names) == 1 && strings.HasPrefix(vs.Names[0].Name, "_inl") && strings.HasSuffix(vs.Names[0].Name, "_m") {
+								expansions = append(expansions, span{b.Pos(), b.End()})
+							}
+						}
+					}
+				}
+				return true
+			})
+			inExpansion := func(pos token.Pos) bool {
+				for _, sp := range expansions {
+					if pos >= sp.lo && pos <= sp.hi {
+						return true
+					}
+				}
+				return false
+			}
 			ast.Inspect(f, func(n ast.Node) bool {
 				as, ok := n.(*ast.AssignStmt)
 				if !ok || as.Tok != token.DEFINE || len(as.Lhs) != len(as.Rhs) {
 					return true
 				}
 				for i, r := range as.Rhs {
+					// a local closure defined by the code of an inlined helper (`abandon := func(...) {...}`) is as transparent
+					// as the helper itself
+					// (the reference tree has no directly called local closure, so this applies to new code only)
+					_ = inExpansion
+					if plain, isLit := r.(*ast.FuncLit); isLit {
+						r = &ast.CallExpr{Fun: &ast.ParenExpr{X: plain.Type}, Args: []ast.Expr{plain}}
+					}
 					conv, ok := r.(*ast.CallExpr)
 					if !ok || len(conv.Args) != 1 {
 						continue
@@ -468,7 +510,14 @@ func (in *inliner) collectLitVars() {
 						continue
 					}
 					if _, isFT := par.X.(*ast.FuncType); !isFT {
-						continue
+						// a named function type (`type middlewareFunc func(http.Handler) http.Handler`)
+						tv, known := p.TypesInfo.Types[par.X]
+						if !known || !tv.IsType() {
+							continue
+						}
+						if _, isSig := tv.Type.Underlying().(*types.Signature); !isSig {
+							continue
+						}
 					}
 					id, ok := as.Lhs[i].(*ast.Ident)
 					if !ok {
@@ -485,14 +534,17 @@ func (in *inliner) collectLitVars() {
 						case *ast.SelectorExpr:
 							if sel, isSel := p.TypesInfo.Selections[x]; isSel {
 								if sel.Kind() == types.MethodExpr {
-									in.litVars[v] = &litVar{kind: "mexpr", expr: x, p: p, assign: as, idx: i}
+									in.litVars[v] = &litVar{v: v, file: f, kind: "mexpr", expr: x, p: p, assign: as, idx: i}
 								}
 							} else if fo, isFn := p.TypesInfo.Uses[x.Sel].(*types.Func); isFn && fo.Type().(*types.Signature).Recv() == nil {
-								in.litVars[v] = &litVar{kind: "func", expr: x, p: p, assign: as, idx: i}
+								in.litVars[v] = &litVar{v: v, file: f, kind: "func", expr: x, p: p, assign: as, idx: i}
 							}
 						case *ast.Ident:
+							if _, isNil := p.TypesInfo.Uses[x].(*types.Nil); isNil {
+								in.litVars[v] = &litVar{v: v, file: f, kind: "nil", p: p, assign: as, idx: i}
+							}
 							if fo, isFn := p.TypesInfo.Uses[x].(*types.Func); isFn && fo.Type().(*types.Signature).Recv() == nil && fo.Parent() == p.Types.Scope() {
-								in.litVars[v] = &litVar{kind: "func", expr: x, p: p, assign: as, idx: i}
+								in.litVars[v] = &litVar{v: v, file: f, kind: "func", expr: x, p: p, assign: as, idx: i}
 							}
 						}
 						continue
@@ -517,7 +569,7 @@ func (in *inliner) collectLitVars() {
 						return !bad
 					})
 					if !bad {
-						in.litVars[v] = &litVar{kind: "lit", lit: lit, p: p, assign: as, idx: i}
+						in.litVars[v] = &litVar{v: v, file: f, kind: "lit", lit: lit, p: p, assign: as, idx: i}
 					}
 				}
 				return true
@@ -577,7 +629,7 @@ func (in *inliner) rewriteFuncValueCalls() {
 				}
 				v, _ := p.TypesInfo.Uses[id].(*types.Var)
 				lv := in.litVars[v]
-				if lv == nil || lv.kind == "lit" || lv.p != p {
+				if lv == nil || lv.kind == "lit" || lv.kind == "nil" || lv.p != p {
 					return true
 				}
 				// the names in the bound expression must mean the same here
@@ -618,11 +670,128 @@ func (in *inliner) rewriteFuncValueCalls() {
 	}
 }
 
+// foldCallbackNilTests: a bound callback is known to be nil or not, so `filter == nil || filter(x)` reduces to
+// `filter(x)` (literal given) or to `true` (nil given), and an `if` on a constant keeps only the live branch.
+func (in *inliner) foldCallbackNilTests() {
+	files := map[*ast.File]*packages.Package{}
+	for _, lv := range in.litVars {
+		files[lv.file] = lv.p
+	}
+	isConst := func(e ast.Expr) (bool, bool) {
+		if id, ok := ast.Unparen(e).(*ast.Ident); ok && (id.Name == "_inl_true" || id.Name == "_inl_false") {
+			return id.Name == "_inl_true", true
+		}
+		return false, false
+	}
+	mk := func(b bool) ast.Expr {
+		if b {
+			return ast.NewIdent("_inl_true")
+		}
+		return ast.NewIdent("_inl_false")
+	}
+	for f, p := range files {
+		changed := false
+		astutil.Apply(f, nil, func(c *astutil.Cursor) bool {
+			switch x := c.Node().(type) {
+			case *ast.BinaryExpr:
+				if x.Op == token.EQL || x.Op == token.NEQ {
+					isNilIdent := func(e ast.Expr) bool {
+						x, ok := ast.Unparen(e).(*ast.Ident)
+						if !ok {
+							return false
+						}
+						_, isNil := p.TypesInfo.Uses[x].(*types.Nil)
+						return isNil
+					}
+					var id *ast.Ident
+					if a, ok := ast.Unparen(x.X).(*ast.Ident); ok && isNilIdent(x.Y) {
+						id = a
+					} else if b, ok := ast.Unparen(x.Y).(*ast.Ident); ok && isNilIdent(x.X) {
+						id = b
+					}
+					if id == nil {
+						return true
+					}
+					v, _ := p.TypesInfo.Uses[id].(*types.Var)
+					lv := in.litVars[v]
+					if lv == nil {
+						return true
+					}
+					isNilCB := lv.kind == "nil"
+					c.Replace(mk((x.Op == token.EQL) == isNilCB))
+					lv.expanded++
+					changed = true
+					return true
+				}
+				if x.Op == token.LOR || x.Op == token.LAND {
+					if b, ok := isConst(x.X); ok {
+						// true || y => true ; false || y => y ; true && y => y ; false && y => false
+						if b == (x.Op == token.LOR) {
+							c.Replace(mk(b))
+						} else {
+							c.Replace(x.Y)
+						}
+						changed = true
+					} else if b, ok := isConst(x.Y); ok && b != (x.Op == token.LOR) {
+						// x || false => x ; x && true => x   (x is still evaluated)
+						c.Replace(x.X)
+						changed = true
+					}
+				}
+			case *ast.UnaryExpr:
+				if b, ok := isConst(x.X); ok && x.Op == token.NOT {
+					c.Replace(mk(!b))
+					changed = true
+				}
+			case *ast.ParenExpr:
+				if b, ok := isConst(x.X); ok {
+					c.Replace(mk(b))
+				}
+			case *ast.IfStmt:
+				if b, ok := isConst(x.Cond); ok && x.Init == nil {
+					switch {
+					case b:
+						c.Replace(x.Body)
+					case x.Else != nil:
+						c.Replace(x.Else)
+					default:
+						c.Replace(&ast.EmptyStmt{})
+					}
+					changed = true
+				}
+			}
+			return true
+		})
+		// constants that survive in other positions become the predeclared ones again
+		astutil.Apply(f, nil, func(c *astutil.Cursor) bool {
+			if id, ok := c.Node().(*ast.Ident); ok {
+				switch id.Name {
+				case "_inl_true":
+					c.Replace(&ast.ParenExpr{X: &ast.BinaryExpr{X: &ast.BasicLit{Kind: token.INT, Value: "0"}, Op: token.EQL, Y: &ast.BasicLit{Kind: token.INT, Value: "0"}}})
+				case "_inl_false":
+					c.Replace(&ast.ParenExpr{X: &ast.BinaryExpr{X: &ast.BasicLit{Kind: token.INT, Value: "0"}, Op: token.NEQ, Y: &ast.BasicLit{Kind: token.INT, Value: "0"}}})
+				}
+			}
+			return true
+		})
+		if changed {
+			in.changed[in.fset.Position(f.Pos()).Filename] = f
+		}
+	}
+}
+
 // dropBoundLiterals: a binding all of whose uses were expanded is neutralised (`_ = 0`), so that the literal does not
 // survive as a dead closure duplicating the code that now stands at its call sites.
 func (in *inliner) dropBoundLiterals() {
 	for _, lv := range in.litVars {
-		if lv.expanded == 0 || lv.expanded+len(lv.blanks) != lv.uses {
+		remaining := 0
+		ast.Inspect(lv.file, func(n ast.Node) bool {
+			if id, ok := n.(*ast.Ident); ok && lv.p.TypesInfo.Uses[id] == types.Object(lv.v) {
+				remaining++
+			}
+			return true
+		})
+		if lv.expanded == 0 || remaining != len(lv.blanks) {
 			continue
 		}
 		zero := func() ast.Expr { return &ast.BasicLit{Kind: token.INT, Value: "0"} }
@@ -663,10 +832,12 @@ func (in *inliner) unrollLiteralRanges(p *packages.Package, f *ast.File) {
 			return pure(x.X) && pure(x.Y)
 		case *ast.UnaryExpr:
 			return x.Op != token.ARROW && pure(x.X)
+		case *ast.FuncLit:
+			return true // creating a closure has no effect; what it captures is read when it is called
 		}
 		return false
 	}
-	unroll := func(rs *ast.RangeStmt) []ast.Stmt {
+	unroll := func(rs *ast.RangeStmt, lit *ast.CompositeLit) []ast.Stmt {
 		if rs.Tok != token.DEFINE || rs.Value == nil {
 			return nil
 		}
@@ -678,7 +849,10 @@ func (in *inliner) unrollLiteralRanges(p *packages.Package, f *ast.File) {
 			return nil
 		}
 		cl, ok := ast.Unparen(rs.X).(*ast.CompositeLit)
-		if !ok || len(cl.Elts) == 0 || len(cl.Elts) > 4 {
+		if !ok {
+			cl = lit
+		}
+		if cl == nil || len(cl.Elts) == 0 || len(cl.Elts) > 6 {
 			return nil
 		}
 		at, ok := cl.Type.(*ast.ArrayType)
@@ -691,6 +865,9 @@ func (in *inliner) unrollLiteralRanges(p *packages.Package, f *ast.File) {
 				return nil
 			}
 			ast.Inspect(e, func(n ast.Node) bool {
+				if _, isLit := n.(*ast.FuncLit); isLit {
+					return false
+				}
 				if id, ok := n.(*ast.Ident); ok {
 					used[id.Name] = true
 				}
@@ -773,7 +950,37 @@ func (in *inliner) unrollLiteralRanges(p *packages.Package, f *ast.File) {
 		var out []ast.Stmt
 		for _, st := range list {
 			if rs, ok := st.(*ast.RangeStmt); ok {
-				if repl := unroll(rs); repl != nil {
+				var lit *ast.CompositeLit
+				defIdx := -1
+				if id, isId := ast.Unparen(rs.X).(*ast.Ident); isId {
+					// a table defined just for this loop: `xs := []T{...}` earlier in the same list, mentioned nowhere else
+					n := 0
+					for _, other := range list {
+						ast.Inspect(other, func(m ast.Node) bool {
+							if x, ok := m.(*ast.Ident); ok && x.Name == id.Name {
+								n++
+							}
+							return true
+						})
+					}
+					for i, prev := range out {
+						if as, ok := prev.(*ast.AssignStmt); ok && as.Tok == token.DEFINE && len(as.Lhs) == 1 && len(as.Rhs) == 1 {
+							if l, ok := as.Lhs[0].(*ast.Ident); ok && l.Name == id.Name {
+								if cl, ok := as.Rhs[0].(*ast.CompositeLit); ok && n == 2 {
+									lit, defIdx = cl, i
+								}
+							}
+						}
+					}
+					if lit == nil {
+						out = append(out, st)
+						continue
+					}
+				}
+				if repl := unroll(rs, lit); repl != nil {
+					if defIdx >= 0 {
+						out = append(out[:defIdx:defIdx], out[defIdx+1:]...)
+					}
 					out = append(out, repl...)
 					changed = true
 					continue
@@ -834,6 +1041,22 @@ func (in *inliner) rewriteList(p *packages.Package, f *ast.File, list []ast.Stmt
 	changed := false
 	var out []ast.Stmt
 	for _, s := range list {
+		// a tagless switch one of whose case expressions calls a helper becomes the equivalent if / else-if chain (the
+		// case expressions are evaluated in order either way), so that the call can be expanded
+		if sw, ok := s.(*ast.SwitchStmt); ok && sw.Tag == nil && sw.Init == nil && in.switchCallsHelper(p, sw) {
+			if chain := switchToIfChain(sw); chain != nil {
+				s = chain
+				changed = true
+			}
+		}
+		// `defer h(a, b)` / `go h(a, b)` on a helper => arguments bound now, `defer func() { h(a', b') }()`: the call inside
+		// the literal is then expanded like any other (next round)
+		if pre, repl := in.wrapDeferredHelper(p, s); repl != nil {
+			out = append(out, pre...)
+			out = append(out, repl)
+			changed = true
+			continue
+		}
 		// `if init; cond {}`  =>  `{ init; if cond {} }` when the init statement contains a helper call
 		if ifs, ok := s.(*ast.IfStmt); ok && ifs.Init != nil && in.firstHelperCall(p, ifs.Init) != nil {
 			inner := *ifs
@@ -931,6 +1154,160 @@ func (in *inliner) rewriteClauses(p *packages.Package, f *ast.File, b *ast.Block
 		}
 	}
 	return changed
+}
+
+func (in *inliner) wrapDeferredHelper(p *packages.Package, s ast.Stmt) ([]ast.Stmt, ast.Stmt) {
+	var call *ast.CallExpr
+	switch x := s.(type) {
+	case *ast.DeferStmt:
+		call = x.Call
+	case *ast.GoStmt:
+		call = x.Call
+	default:
+		return nil, nil
+	}
+	sh := in.shapeOf(p, call)
+	if sh == nil || sh.fn == nil || call.Ellipsis.IsValid() || sh.sig.Variadic() || sh.sig.TypeParams().Len() > 0 {
+		return nil, nil
+	}
+	if in.declPkg[sh.fn] != p {
+		return nil, nil
+	}
+	inlineSeq++
+	prefix := fmt.Sprintf("_inl%d", inlineSeq)
+	var lhs, rhs []ast.Expr
+	newCall := &ast.CallExpr{}
+	// receiver
+	if sh.recv != nil && len(sh.recv.List) == 1 {
+		sel, ok := ast.Unparen(call.Fun).(*ast.SelectorExpr)
+		if !ok {
+			return nil, nil
+		}
+		if selInfo, ok := p.TypesInfo.Selections[sel]; ok && len(selInfo.Index()) > 1 {
+			return nil, nil
+		}
+		name := prefix + "_recv"
+		lhs = append(lhs, ast.NewIdent(name))
+		rhs = append(rhs, copyExpr(sel.X))
+		newCall.Fun = &ast.SelectorExpr{X: ast.NewIdent(name), Sel: ast.NewIdent(sel.Sel.Name)}
+	} else {
+		newCall.Fun = copyExpr(call.Fun)
+	}
+	ai := 0
+	for _, fld := range sh.typ.Params.List {
+		n := len(fld.Names)
+		if n == 0 {
+			n = 1
+		}
+		for j := 0; j < n; j++ {
+			if ai >= len(call.Args) {
+				return nil, nil
+			}
+			name := fmt.Sprintf("%s_a%d", prefix, ai)
+			lhs = append(lhs, ast.NewIdent(name))
+			if tv, ok := p.TypesInfo.Types[call.Args[ai]]; ok && tv.Value == nil && !tv.IsNil() && tv.Type != nil && ai < sh.sig.Params().Len() && types.Identical(tv.Type, sh.sig.Params().At(ai).Type()) {
+				rhs = append(rhs, copyExpr(call.Args[ai]))
+			} else {
+				rhs = append(rhs, &ast.CallExpr{Fun: &ast.ParenExpr{X: copyExpr(fld.Type)}, Args: []ast.Expr{copyExpr(call.Args[ai])}})
+			}
+			newCall.Args = append(newCall.Args, ast.NewIdent(name))
+			ai++
+		}
+	}
+	if ai != len(call.Args) {
+		return nil, nil
+	}
+	var pre []ast.Stmt
+	if len(lhs) > 0 {
+		pre = append(pre, &ast.AssignStmt{Lhs: lhs, Tok: token.DEFINE, Rhs: rhs})
+	}
+	lit := &ast.FuncLit{Type: &ast.FuncType{Params: &ast.FieldList{}}, Body: &ast.BlockStmt{List: []ast.Stmt{&ast.ExprStmt{X: newCall}}}}
+	wrapped := &ast.CallExpr{Fun: lit}
+	in.extraUses[sh.fn]++ // the call lives on inside the literal until the next round
+	if _, isDefer := s.(*ast.DeferStmt); isDefer {
+		return pre, &ast.DeferStmt{Call: wrapped}
+	}
+	return pre, &ast.GoStmt{Call: wrapped}
+}
+
+func (in *inliner) switchCallsHelper(p *packages.Package, sw *ast.SwitchStmt) bool {
+	found := false
+	for _, c := range sw.Body.List {
+		for _, e := range c.(*ast.CaseClause).List {
+			ast.Inspect(e, func(n ast.Node) bool {
+				if _, isLit := n.(*ast.FuncLit); isLit {
+					return false
+				}
+				if call, ok := n.(*ast.CallExpr); ok && in.shapeOf(p, call) != nil {
+					found = true
+				}
+				return !found
+			})
+		}
+	}
+	return found
+}
+
+// switchToIfChain: `switch { case a: A; case b, c: B; default: D }` => `if a { A } else if b || c { B } else { D }`; nil
+// when the bodies use break / fallthrough (whose meaning would change).
+func switchToIfChain(sw *ast.SwitchStmt) ast.Stmt {
+	ok := true
+	var scan func(n ast.Node, nested bool)
+	scan = func(n ast.Node, nested bool) {
+		ast.Inspect(n, func(m ast.Node) bool {
+			if m == nil || !ok {
+				return false
+			}
+			switch x := m.(type) {
+			case *ast.FuncLit:
+				return false
+			case *ast.BranchStmt:
+				if x.Tok == token.FALLTHROUGH || (x.Tok == token.BREAK && x.Label == nil && !nested) {
+					ok = false
+				}
+			case *ast.ForStmt, *ast.RangeStmt, *ast.SwitchStmt, *ast.TypeSwitchStmt, *ast.SelectStmt:
+				if m != n {
+					scan(m, true)
+					return false
+				}
+			}
+			return true
+		})
+	}
+	var clauses []*ast.CaseClause
+	var def *ast.CaseClause
+	for _, c := range sw.Body.List {
+		cc := c.(*ast.CaseClause)
+		for _, st := range cc.Body {
+			scan(st, false)
+		}
+		if cc.List == nil {
+			def = cc
+		} else {
+			clauses = append(clauses, cc)
+		}
+	}
+	if !ok || len(clauses) == 0 {
+		return nil
+	}
+	// the default clause may stand anywhere in the source but is always evaluated last
+	var tail ast.Stmt
+	if def != nil {
+		tail = &ast.BlockStmt{List: def.Body}
+	}
+	for i := len(clauses) - 1; i >= 0; i-- {
+		cc := clauses[i]
+		cond := cc.List[0]
+		for _, e := range cc.List[1:] {
+			cond = &ast.BinaryExpr{X: cond, Op: token.LOR, Y: e}
+		}
+		ifs := &ast.IfStmt{Cond: cond, Body: &ast.BlockStmt{List: cc.Body}}
+		if tail != nil {
+			ifs.Else = tail
+		}
+		tail = ifs
+	}
+	return tail
 }
 
 // hoistable expressions of a statement, in evaluation order.
@@ -1177,7 +1554,70 @@ func (in *inliner) expand(p *packages.Package, f *ast.File, call *ast.CallExpr, 
 	scope := p.Types.Scope().Innermost(call.Pos())
 	conflict := ""
 	needImports := map[string]string{} // name -> path
-	ast.Inspect(fd, func(n ast.Node) bool {
+	// an argument that already has exactly the parameter's type is bound without writing the type (whose name might
+	// mean something else at the call site)
+	plain := func(arg ast.Expr, want types.Type) bool {
+		if sh.sig.TypeParams().Len() > 0 || want == nil {
+			return false
+		}
+		tv, ok := p.TypesInfo.Types[arg]
+		if !ok || tv.Value != nil || tv.Type == nil || tv.IsNil() {
+			return false
+		}
+		if _, isFunc := want.Underlying().(*types.Signature); isFunc {
+			return false // callbacks keep the conversion form (see collectLitVars)
+		}
+		return types.Identical(tv.Type, want)
+	}
+	plainParam := map[ast.Expr]bool{} // parameter type expressions that need not be written
+	{
+		ai := 0
+		pi := 0
+		for _, fld := range fd.Type.Params.List {
+			n := len(fld.Names)
+			if n == 0 {
+				n = 1
+			}
+			all := true
+			for j := 0; j < n; j++ {
+				if _, isEll := fld.Type.(*ast.Ellipsis); isEll || ai >= len(call.Args) || pi >= sh.sig.Params().Len() || call.Ellipsis.IsValid() {
+					all = false
+				} else if !plain(call.Args[ai], sh.sig.Params().At(pi).Type()) {
+					all = false
+				}
+				ai++
+				pi++
+			}
+			if all {
+				plainParam[fld.Type] = true
+			}
+		}
+	}
+	plainRecv := false
+	if fd.Recv != nil && len(fd.Recv.List) == 1 && sh.sig.Recv() != nil {
+		if sel, ok := ast.Unparen(call.Fun).(*ast.SelectorExpr); ok {
+			plainRecv = plain(sel.X, sh.sig.Recv().Type())
+		}
+	}
+	var scanNodes []ast.Node
+	scanNodes = append(scanNodes, fd.Body)
+	for _, fld := range fd.Type.Params.List {
+		if !plainParam[fld.Type] {
+			scanNodes = append(scanNodes, fld.Type)
+		}
+	}
+	if fd.Type.Results != nil && !tail {
+		scanNodes = append(scanNodes, fd.Type.Results)
+	}
+	if fd.Recv != nil && !plainRecv {
+		scanNodes = append(scanNodes, fd.Recv)
+	}
+	scanAll := func(visit func(n ast.Node) bool) {
+		for _, sn := range scanNodes {
+			ast.Inspect(sn, visit)
+		}
+	}
+	scanAll(func(n ast.Node) bool {
 		id, ok := n.(*ast.Ident)
 		if !ok || sh.fn == nil {
 			return sh.fn != nil
@@ -1327,10 +1767,13 @@ func (in *inliner) expand(p *packages.Package, f *ast.File, call *ast.CallExpr, 
 		}
 	}
 	var body []ast.Stmt
+	// marks the statements that follow as the product of an expansion (see collectLitVars)
+	body = append(body, &ast.DeclStmt{Decl: &ast.GenDecl{Tok: token.CONST, Specs: []ast.Spec{&ast.ValueSpec{Names: []*ast.Ident{ast.NewIdent(label + "_m")}, Values: []ast.Expr{&ast.BasicLit{Kind: token.INT, Value: "0"}}}}}})
 	// parameter bindings
 	var lhs []ast.Expr
 	var rhs []ast.Expr
 	var used []ast.Stmt
+	bindPlain := false
 	bind := func(name string, typ ast.Expr, val ast.Expr) {
 		if name == "" || name == "_" {
 			inlineSeq++
@@ -1338,7 +1781,11 @@ func (in *inliner) expand(p *packages.Package, f *ast.File, call *ast.CallExpr, 
 			name = fmt.Sprintf("%s_u%d", label, in.n)
 		}
 		lhs = append(lhs, ast.NewIdent(name))
-		rhs = append(rhs, &ast.CallExpr{Fun: &ast.ParenExpr{X: typ}, Args: []ast.Expr{val}})
+		if bindPlain {
+			rhs = append(rhs, val)
+		} else {
+			rhs = append(rhs, &ast.CallExpr{Fun: &ast.ParenExpr{X: typ}, Args: []ast.Expr{val}})
+		}
 		used = append(used, &ast.AssignStmt{Lhs: []ast.Expr{ast.NewIdent("_")}, Tok: token.ASSIGN, Rhs: []ast.Expr{ast.NewIdent(name)}})
 	}
 	if fd.Recv != nil && len(fd.Recv.List) == 1 {
@@ -1366,7 +1813,9 @@ func (in *inliner) expand(p *packages.Package, f *ast.File, call *ast.CallExpr, 
 		if len(fd.Recv.List[0].Names) == 1 {
 			name = fd.Recv.List[0].Names[0].Name
 		}
+		bindPlain = plainRecv && recvExpr == copyExprIdentity(recvExpr) && !(wantPtr && !havePtr) && !(!wantPtr && havePtr)
 		bind(name, copyExpr(fd.Recv.List[0].Type), recvExpr)
+		bindPlain = false
 	}
 	ai := 0
 	for _, fld := range fd.Type.Params.List {
@@ -1393,7 +1842,9 @@ func (in *inliner) expand(p *packages.Package, f *ast.File, call *ast.CallExpr, 
 				in.skipped[fname] = "argument count mismatch (call of a multi-value expression)"
 				return nil, nil, false
 			}
+			bindPlain = plainParam[fld.Type]
 			bind(nm.Name, substTypes(copyExpr(fld.Type)).(ast.Expr), copyExpr(call.Args[ai]))
+			bindPlain = false
 			ai++
 		}
 	}
@@ -1539,6 +1990,74 @@ func rewriteReturns(b *ast.BlockStmt, label string, outs []ast.Expr, resultNames
 	b.List = fixList(b.List)
 }
 
+// pruneImports removes imports that nothing in the (rewritten) file refers to any more - dropping an inlined helper can
+// leave its file with an import only the helper used, which does not compile.
+func pruneImports(f *ast.File, pkgNames map[string]string) {
+	used := map[string]bool{}
+	ast.Inspect(f, func(n ast.Node) bool {
+		if _, isImp := n.(*ast.ImportSpec); isImp {
+			return false
+		}
+		if sel, ok := n.(*ast.SelectorExpr); ok {
+			if id, ok := sel.X.(*ast.Ident); ok {
+				used[id.Name] = true
+			}
+		}
+		return true
+	})
+	keep := func(imp *ast.ImportSpec) bool {
+		if imp.Name != nil {
+			return imp.Name.Name == "_" || imp.Name.Name == "." || used[imp.Name.Name]
+		}
+		path := strings.Trim(imp.Path.Value, `"`)
+		if n, ok := pkgNames[path]; ok && n != "" {
+			return used[n]
+		}
+		base := path[strings.LastIndex(path, "/")+1:]
+		if used[base] {
+			return true
+		}
+		// package name differing from the last path element (v2 suffixes, go-xyz): keep unless clearly unused
+		if strings.HasPrefix(base, "v") && len(base) <= 3 {
+			parts := strings.Split(path, "/")
+			if len(parts) >= 2 && used[parts[len(parts)-2]] {
+				return true
+			}
+		}
+		for name := range used {
+			if strings.Contains(base, name) && len(name) >= 3 {
+				return true
+			}
+		}
+		return false
+	}
+	var imports []*ast.ImportSpec
+	for _, d := range f.Decls {
+		gd, ok := d.(*ast.GenDecl)
+		if !ok || gd.Tok != token.IMPORT {
+			continue
+		}
+		var specs []ast.Spec
+		for _, sp := range gd.Specs {
+			if imp := sp.(*ast.ImportSpec); keep(imp) {
+				specs = append(specs, sp)
+				imports = append(imports, imp)
+			}
+		}
+		gd.Specs = specs
+	}
+	f.Imports = imports
+	// an emptied import declaration must go altogether
+	var decls []ast.Decl
+	for _, d := range f.Decls {
+		if gd, ok := d.(*ast.GenDecl); ok && gd.Tok == token.IMPORT && len(gd.Specs) == 0 {
+			continue
+		}
+		decls = append(decls, d)
+	}
+	f.Decls = decls
+}
+
 func ensureImport(f *ast.File, name, path string) bool {
 	for _, imp := range f.Imports {
 		ipath := strings.Trim(imp.Path.Value, `"`)
@@ -1578,6 +2097,8 @@ func ensureImport(f *ast.File, name, path string) bool {
 func lastElemMatches(path, name string) bool {
 	return path[strings.LastIndex(path, "/")+1:] == name
 }
+
+func copyExprIdentity(e ast.Expr) ast.Expr { return e }
 
 // ---- AST copying (positions are dropped so that the printer lays the code out afresh) ----
 
